@@ -396,7 +396,13 @@ func (c *Compiler) Compile(node parser.Node) error {
 			s.LocalAssigned = true
 		}
 
-		if err := c.Compile(node.Body); err != nil {
+		// loops of the enclosing function are not visible inside the
+		// function literal: break/continue must not escape the function
+		outerLoops, outerLoopIndex := c.loops, c.loopIndex
+		c.loops, c.loopIndex = nil, -1
+		err := c.Compile(node.Body)
+		c.loops, c.loopIndex = outerLoops, outerLoopIndex
+		if err != nil {
 			return err
 		}
 
